@@ -147,7 +147,7 @@ impl<'a> DeclVisitor for Build<'a> {
                 2 => After::Corrupt(gen_corruption(rng)),
                 _ => {
                     let (rplan, tail) = gen_benign_rplan(rng);
-                    After::Get { api: *rng.pick(&[Api::Reader, Api::Reader, Api::Slice, Api::Str]), rplan, tail }
+                    After::Get { api: *rng.pick(&[Api::Reader, Api::Reader, Api::Slice, Api::Str, Api::Value]), rplan, tail }
                 }
             });
         }
@@ -644,7 +644,7 @@ fn run_check(cfg: &Config) -> i32 {
     let t0 = Instant::now();
     let mut determinism_diverged = false;
     let decls = c10_decls();
-    let n: u64 = if cfg.thorough() { 10_000_000 } else { 600_000 };
+    let n: u64 = if cfg.thorough() { 20_000_000 } else { 600_000 };
     let cfg2 = cfg.clone();
     let dl = decls.clone();
     let mut stats = runner::run_sharded(
